@@ -37,6 +37,7 @@ def refill_ok(p, si, ri, after):
     # rb.extend) is inlined, the loop is driven by the mapped range: max_len items, each one pull of this signal
     for l in [l for l in iterator_loops(p) if l['enter'] > after]:
         it = l['iter']
+        refill_ok.enter = l['enter']
         src = p['events'][it[1]] if it[0] == 'ret' else None
         if src is not None and rb_path(src).endswith('IntoIterator>::into_iter') or (src is not None and src['name'] == 'into_iter'):
             it = src['args'][0]
@@ -72,6 +73,7 @@ def refill_ok(p, si, ri, after):
     if len(loops) + len(counters) + len(downs) != 1:
         return None, 'expected one refill loop over a range'
     l = (loops or counters or downs)[0]
+    refill_ok.enter = l['enter']
     if downs:
         # `for frame in (&mut signal).take(max_len)`: dasp's own Take counts max_len down to zero
         l = dict(l, lo=('int', 0, 'usize'), hi=l['count'])
@@ -111,6 +113,63 @@ def refill_ok(p, si, ri, after):
             return None, 'pulls after the refill loop has finished'
         return 'exit', None
     return None, 'refill loop not driven by its range'
+
+
+def next_trace(p, si, ri):
+    """Buffered::next as a trace language, for bodies that are not literally `loop { match pop { .. } }`:  along the path the
+    ring-buffer / source events must spell  (pop = None ; refill)* pop = Some(frame) ; return frame.  Two states: A = the
+    next relevant event must be a pop, B = the buffer was just found empty and must be refilled.  A loop header is
+    entered in one state and every back edge to it must arrive in that same state (every path starts at the function
+    entry, so a path that ends at a back edge has crossed that header before).  Returns (kinds, why)."""
+    facts = dict(cond_facts(p))
+    evs = call_events(p)
+    state, hstate, kinds = 'A', {}, set()
+    covered_from = None         # index of the None-pop whose refill `refill_ok` has validated (it vets every later pull / push)
+    refilled_at = None          # index of the loop-enter event of a refill loop that this path leaves at once ('exit')
+    for k, e in enumerate(p['events']):
+        if e['kind'] == 'loop-enter':
+            hstate.setdefault(e['header'], state)
+            if k == refilled_at:
+                state = 'A'
+            continue
+        if e['kind'] != 'call':
+            continue
+        if rb_path(e).startswith(RB) and not (rb(e, 'pop') or rb(e, 'push') or rb(e, 'max_len')):
+            return None, 'touches the ring buffer other than by pop / push / max_len (%s)' % rb_path(e)
+        if (rb(e, 'push') or is_call(e, SIGNAL, 'next')) and covered_from is None:
+            return None, 'pulls or pushes before the ring buffer was found empty'
+        if not rb(e, 'pop'):
+            continue
+        if e['args'][0] != ('ref', self_loc(ri)):
+            return None, 'pops another ring buffer'
+        if state != 'A':
+            return None, 'pops again without refilling'
+        d = facts.get(('discr', ('ret', k)))
+        if d == ('int', 1, 'isize'):
+            if [x for x in evs if x[0] > k] or p['end'] != 'return' or p['ret'] != ('field', ('variant', ('ret', k), 1), 0):
+                return None, 'a popped frame must be returned at once, without pulling'
+            kinds.add('hit')
+            return kinds, None
+        if d != ('int', 0, 'isize'):
+            return None, 'pop() result not examined'
+        state = 'B'
+        if not any(f['kind'] == 'loop-enter' for f in p['events'][k + 1:]):
+            if [x for x in evs if x[0] > k and (rb_path(x[1]).startswith(RB) or is_call(x[1], SIGNAL, 'next'))]:
+                return None, 'pulls or pushes outside the refill loop'
+            break               # the refill lies behind a back edge: decided by the header states below
+        kind, why = refill_ok(p, si, ri, k)
+        if why:
+            return None, why
+        covered_from = k
+        kinds.add(kind)
+        if kind == 'iteration':
+            return kinds, None          # refill_ok: nothing but push(signal.next()) until the refill loop's own back edge
+        refilled_at = refill_ok.enter
+    if p['end'] == 'return':
+        return None, 'returns something other than a frame just popped'
+    if not (isinstance(p['end'], tuple) and p['end'][0] == 'back') or hstate.get(p['end'][1]) != state:
+        return None, 'a loop is re-entered in another state (%s) than it was first entered in (%s)' % (state, hstate.get(p['end'][1]) if isinstance(p['end'], tuple) else p['end'])
+    return kinds, None
 
 
 def run(run, tier, loadcfg):
@@ -196,6 +255,18 @@ def run(run, tier, loadcfg):
                     break
             if not bad and kinds != {'hit', 'iteration', 'exit'}:
                 bad = 'step function lacks a case (has %s)' % sorted(kinds)
+            if bad:
+                # not the literal loop-around-a-match: the same protocol as a language of traces
+                kinds, bad2 = set(), None
+                for p in ps:
+                    ks, why = next_trace(p, si, ri)
+                    if why:
+                        bad2 = why + ': [%s]' % describe_path(p)
+                        break
+                    kinds |= ks
+                if not bad2 and kinds != {'hit', 'iteration', 'exit'}:
+                    bad2 = 'step function lacks a case (has %s)' % sorted(kinds)
+                bad = ('%s; as a trace: %s' % (bad, bad2)) if bad2 else None
             run.check(bad is None, 'buffered.next', fn, cfg, bad or '', where=where(body), sample=[describe_path(p) for p in ps])
         # ---- next_frames
         fn = 'dasp_signal::Buffered::<S, D>::next_frames'
